@@ -123,7 +123,7 @@ def case_canon(tree, crange=None):
         v0, v1 = e.eval(ds, []), c.eval(ds, [])
         return v0 != v1, f"expr={e} canon={c} dims={ds} eval={v0} vs {v1}"
 
-    return run_case(fn, replay, signature=lambda f, v: f["name"], sample=dict(tree=str(tree)), key=str(tree),
+    return run_case(fn, replay, witness=True, signature=lambda f, v: f["name"], sample=dict(tree=str(tree)), key=str(tree),
                     reject=(Exception, RecursionError))
 
 
@@ -165,7 +165,7 @@ def case_transform(case):
             l, rr = T1.compose(T2).eval(x), T1.eval(T2.eval(x))
             return (l != rr).any(), f"compose {l} vs {rr}"
 
-        return run_case(fn, replay, sample=dict(kind=kind, shape=(r, m, n)), key=str(case))
+        return run_case(fn, replay, witness=True, sample=dict(kind=kind, shape=(r, m, n)), key=str(case))
     if kind == "interop":
         _, A, b = case
         A = np.array(A, dtype=int)
@@ -202,7 +202,7 @@ def case_transform(case):
             back = list(T.to_affine_map().eval(x, []))
             return got != ref or back != ref, f"map={m} x={x} ref={ref} transform={got} back={back}"
 
-        return run_case(fn, replay, sample=dict(kind=kind, A=A.tolist(), b=b.tolist()), key=str(case))
+        return run_case(fn, replay, witness=True, sample=dict(kind=kind, A=A.tolist(), b=b.tolist()), key=str(case))
     raise ValueError(case)
 
 
@@ -271,7 +271,7 @@ def case_access(case):
                 bad.append(f"inner_dims({d}) {g} vs {rf}")
         return bool(bad), f"A={A.tolist()} b={b.tolist()} B={B} x={x}: {bad}"
 
-    return run_case(fn, replay, sample=dict(cls=cls_name, A=A.tolist(), b=b.tolist()), key=str(case))
+    return run_case(fn, replay, witness=True, sample=dict(cls=cls_name, A=A.tolist(), b=b.tolist()), key=str(case))
 
 
 # ------------------------------------------------------------------ (d) StridePattern.canonicalize
@@ -357,7 +357,7 @@ def case_stride(case):
         bad = a0 != a1 or c2 != c or [x.data for x in c.spatial_strides] != ss
         return bad, f"ub={ubs} ts={ts} ss={ss} canon ub={cub} ts={cts}; addr {a0[:8]} vs {a1[:8]}"
 
-    return run_case(fn, replay, sample=dict(ub=ubs, nss=nss), key=str(case))
+    return run_case(fn, replay, witness=True, sample=dict(ub=ubs, nss=nss), key=str(case))
 
 
 # ------------------------------------------------------------------ (e) pack_bitlist
@@ -440,7 +440,7 @@ def case_pack(case):
         exp &= (1 << w) - 1
         return got != exp, f"kinds={kinds} w={w} got={got} expected={exp} model={m}"
 
-    return run_case(fn, replay, sample=dict(n=n, width=w, kinds=kinds), key=str(case))
+    return run_case(fn, replay, witness=True, sample=dict(n=n, width=w, kinds=kinds), key=str(case))
 
 
 # ------------------------------------------------------------------ (f) print -> parse
@@ -494,7 +494,7 @@ def case_printparse(case):
                 return True, f"{p}: parse failed {e}"
             return q != p, f"{txt} -> {q}"
 
-        return run_case(fn, replay, sample=dict(kind=kind, nt=nt, ns=ns, classes=classes), key=str(case))
+        return run_case(fn, replay, witness=True, sample=dict(kind=kind, nt=nt, ns=ns, classes=classes), key=str(case))
     if kind == "config":
         _, streamers, systype = case
 
@@ -529,7 +529,7 @@ def case_printparse(case):
         def sig(f, v):
             return "streamer_config:print_parse:" + ("xdma" if systype == "xdma" else "reg")
 
-        return run_case(fn, replay, signature=sig, sample=dict(kind=kind, streamers=streamers, systype=systype),
+        return run_case(fn, replay, witness=True, signature=sig, sample=dict(kind=kind, streamers=streamers, systype=systype),
                         key=str(case))
     raise ValueError(case)
 
